@@ -262,6 +262,12 @@ class CallMixin(ExecBase):
         it = args[0]
         m = s.unit.methods.get((it.get("ty"), "__next__"))
         if m is None:
+            # the static type is unknown: use the class the path condition implies (e.g. after an isinstance test)
+            for (ty, nm), mm in s.unit.methods.items():
+                if nm == "__next__" and ty and not p.feasible([Not(is_kind(it.t, ty))]):
+                    m = mm
+                    break
+        if m is None:
             raise Unsupported(f"next() of {it} @ line {node.lineno}")
         res = m(s, p, [it], {}, node)
         if len(args) > 1:
